@@ -5,7 +5,9 @@ Inductive jkind := JInner | JLeft | JStrict.
 Inductive lkey := LNR | LFld (i : nat).        (* NR / aNR / a.NR, or safe_join_get(record_a, i) *)
 Inductive rkey := RNR | RFld (j : nat).        (* bNR / b.NR (index -1), or fields[j] *)
 
-Record join_spec := { j_kind : jkind; j_lhs : list lkey; j_rhs : list rkey }.
+(* j_bhdr: the number of names in the header of the join table (None = the join table has no header); the only thing
+   the relational skeleton needs of that header is its width (fix c71773a, finding D27) *)
+Record join_spec := { j_kind : jkind; j_lhs : list lkey; j_rhs : list rkey; j_bhdr : option nat }.
 
 (* a bucket entry (nr, nf, fields) *)
 Definition bentry := (nat * nat * rec)%type.
@@ -45,6 +47,16 @@ Fixpoint build_from (ks : list rkey) (B : list rec) (nr : nat) (m : jmap) : jmap
   end.
 Definition build (ks : list rkey) (B : list rec) : jmap + nat :=
   build_from ks B 0 {| m_buckets := []; m_maxlen := 0 |}.
+
+(* shallow_parse_input_query, right after join_map_impl.build():
+     if join_header is not None: max_record_len = max(max_record_len, len(join_header))
+   so the all-None record of LEFT JOIN has one field per join column also when no join record is that wide
+   (a join table with a header and no records: before c71773a the null record had 0 fields, D27) *)
+Definition widen (jh : option nat) (m : jmap) : jmap :=
+  match jh with
+  | None => m
+  | Some n => {| m_buckets := m_buckets m; m_maxlen := Nat.max (m_maxlen m) n |}
+  end.
 
 Fixpoint get_join_records (bs : list (key * list bentry)) (k : key) : list bentry :=
   match bs with
